@@ -33,6 +33,8 @@ func checkC15(p *Prog, r *Report) {
 	c15History(p, r, "C15.R4")
 	// the texture table cells are turned into numbers by the shared helpers
 	inputHelpers(p, r, "C15.R5")
+	// an absent optional column must not be read from column 0 (the soil id becomes field capacity = wilting point = pore volume; shared with C13.optional-columns)
+	c13OptionalColumnsAs(p, r, "C15.R6")
 }
 
 // ---------------------------------------------------------------- units
